@@ -27,6 +27,19 @@ def removal_nests(fn):
     par = astx.Parents(fn.node)
     sc_ = Scope(fn.node)
     for n in astx.walk_fn(fn.node):
+        # bulk form: self._G.remove_edges_from(combinations(X, 2))  removes every pair of X at once
+        if isinstance(n, ast.Call) and isinstance(n.func, ast.Attribute) and n.func.attr == "remove_edges_from" and txt(n.func.value) in ("self._G", "self.G") and len(n.args) == 1:
+            a_ = sc_.deref(n.args[0]) if isinstance(n.args[0], ast.Name) else n.args[0]
+            while isinstance(a_, ast.Call) and txt(a_.func) in ("list", "tuple", "set") and len(a_.args) == 1:
+                a_ = a_.args[0]
+            bc_ = match(pat("combinations($x, 2)"), a_) or match(pat("itertools.combinations($x, 2)"), a_)
+            st_ = par.stmt_of(n)
+            if bc_ is not None:
+                X_ = txt(bc_["x"])
+                out.append((st_, f"len({X_})", X_, n, True, ""))
+            else:
+                out.append((None, None, None, n, False, f"`{txt(n)[:60]}` does not remove all pairs of one clique"))
+            continue
         if isinstance(n, ast.Call) and txt(n.func) == "self.remove_edge" and len(n.args) == 2:
             loops = par.loops_of(n)
             if loops:
@@ -39,6 +52,17 @@ def removal_nests(fn):
                         it0 = it0.args[0]
                         bc = match(pat("combinations($x, 2)"), it0) or match(pat("itertools.combinations($x, 2)"), it0)
                 tg = loops[0].target
+                if bc is not None and isinstance(tg, ast.Tuple) and len(tg.elts) == 2 and match(pat("range($n)"), bc["x"]) is not None \
+                        and all(isinstance(a, ast.Subscript) for a in n.args):
+                    # index pairs: for i, j in combinations(range(N), 2): remove_edge(X[i], X[j])  =  the nested index loops
+                    N_ = match(pat("range($n)"), bc["x"])["n"]
+                    xs = {txt(a.value) for a in n.args}
+                    idx = sorted(txt(a.slice) for a in n.args)
+                    okc = len(xs) == 1 and idx == sorted(txt(e) for e in tg.elts)
+                    X_ = sorted(xs)[0]
+                    nt = txt(sc_.resolve(N_))
+                    out.append((loops[0], nt if nt != f"len({X_})" else f"len({X_})", X_, n, okc, "" if okc else "arguments are not X[i], X[j] of one clique for the index pair drawn"))
+                    continue
                 if bc is not None and isinstance(tg, ast.Tuple) and len(tg.elts) == 2:
                     X_ = txt(bc["x"])
                     okc = sorted(txt(a) for a in n.args) == sorted(txt(e) for e in tg.elts)
@@ -203,6 +227,8 @@ def run(ctx):
                         o.holds(ge, il, f"removal bound `{N}` = len({cli}): candidates are filtered by ord[idx] == {N}, ord[c] = len(C[c]), and C/ord/r are filtered in lock-step")
                     elif not p2:
                         o.violated(cs, cs.node, f"the removal bound `{N}` relies on ord[c] = len(C[c]), which compute_scores no longer guarantees")
+                    elif p3 is None:
+                        o.undecided("the filtering of C / ord / r after scoring is not recognised (neither the three-append loop nor three comprehensions over one index set)", ge, wl)
                     elif not p3:
                         o.violated(ge, wl, "C, ord and r are no longer filtered in lock-step: ord[idx] need not be the size of C[idx], so the removal bound is wrong")
                     else:
@@ -519,8 +545,19 @@ def _n_is_len(par, il, N, X):
 
 def _lockstep(ge):
     """Every filtering loop appends C[i], ord[i], r[i] with the same i, one append each."""
-    ok_any = False
+    ok_any = None         # None: no filtering construct recognised; True / False: recognised and (not) in lock-step
     for n in astx.walk_fn(ge.node):
+        # comprehension form:  C, ord, r = [C[i] for i in S], [ord[i] for i in S], [r[i] for i in S]   (or three assignments)
+        if isinstance(n, ast.Assign) and len(n.targets) == 1 and isinstance(n.targets[0], ast.Tuple) and isinstance(n.value, ast.Tuple) \
+                and len(n.targets[0].elts) == 3 and len(n.value.elts) == 3 and sorted(astx.txt(t) for t in n.targets[0].elts) == ["C", "ord", "r"]:
+            comps = list(n.value.elts)
+            if all(isinstance(c, ast.ListComp) and len(c.generators) == 1 and not c.generators[0].ifs and isinstance(c.elt, ast.Subscript) for c in comps):
+                same_src = len({astx.txt(c.generators[0].iter) for c in comps}) == 1
+                aligned = all(astx.txt(c.elt) == f"{astx.txt(t)}[{astx.txt(c.generators[0].target)}]" for t, c in zip(n.targets[0].elts, comps))
+                if same_src and aligned:
+                    ok_any = True if ok_any is None else ok_any
+                else:
+                    return False
         if isinstance(n, ast.For):
             apps = [s for s in n.body if isinstance(s, ast.Expr) and isinstance(s.value, ast.Call) and isinstance(s.value.func, ast.Attribute) and s.value.func.attr == "append"]
             if len(apps) == 3 and len(n.body) == 3:
